@@ -8,7 +8,8 @@
    4. for each of the 22 x 1000 (scale, group value) pairs the words of the round are compared with the
       words of the definition by kernel computation (the domain of a group IS finite), and the result
       is lifted to all numbers by induction over the list of groups;
-   5. both directions: the loop writes the defined text EXACTLY when english_ok holds.
+   5. the last word of an ordinal that ends in 0 takes its ordinal form by its ending (y -> ieth, + th); with that the
+      loop writes the defined text for EVERY integer, cardinal and ordinal (an error from 10^66 on, like the definition).
    Everything is parametric in the tables T; the finite checks are boolean functions of T, evaluated
    for the tables as they stand in the source (here) and for the regenerated ones (TableProofs.v). *)
 From C15 Require Import Model Spec TableCheck IntProofs WordProofs.
@@ -262,16 +263,21 @@ Proof.
   destruct (digits 10 n) as [|d l]; [contradiction|]. cbn [hd] in Hz. inversion Hb; subst.
   exists d, (map digit_char l). split; [reflexivity | lia].
 Qed.
-Definition english_of_loop (neg : bool) (r : option (list text)) : option text :=
+Definition english_of_loop (colon neg : bool) (digits : text) (r : option (list text)) : option text :=
   match r with
   | None => None
-  | Some words => Some (join [sp] (rev (if neg then words ++ [tx "negative"] else words)))
+  | Some words =>
+    match go_ordinal_first colon digits words with
+    | None => None
+    | Some words => Some (join [sp] (rev (if neg then words ++ [tx "negative"] else words)))
+    end
   end.
 Lemma go_english_digits : forall T (colon neg : bool) d rest, (1 <= d < 10)%N ->
   go_english T colon ((if neg then ["-"%char] else @nil ascii) ++ dc d :: rest) =
   if Nat.ltb (3 * List.length (t_triples T)) (List.length (dc d :: rest)) then None else
-  english_of_loop neg (go_card_loop T (t_triples T) (dc d :: rest) (Z.of_nat (List.length (dc d :: rest)) - 1) []
-                        (if colon then t_ordone T else t_one T) (if colon then t_ordteen T else t_teen T)).
+  english_of_loop colon neg (dc d :: rest)
+    (go_card_loop T (t_triples T) (dc d :: rest) (Z.of_nat (List.length (dc d :: rest)) - 1) []
+                  (if colon then t_ordone T else t_one T) (if colon then t_ordteen T else t_teen T)).
 Proof.
   intros T colon neg d rest Hd.
   assert (Hin : In d (map N.of_nat (seq 1 9))).
@@ -279,13 +285,18 @@ Proof.
   cbn [seq map] in Hin.
   repeat (destruct Hin as [<- | Hin]; [destruct neg; reflexivity |]). destruct Hin.
 Qed.
-(* for every integer but 0: the text is the words of the groups, most significant first, after "negative" *)
+(* for every integer but 0: an error when there are more than three digits per scale word; otherwise the text is the words
+   of the groups, most significant first, after "negative", the last word made an ordinal by its ending when no ordinal
+   table was used *)
 Theorem go_english_words : forall T colon z, z <> 0%Z ->
   go_english T colon (dec_text z) =
   if Nat.ltb (3 * List.length (t_triples T)) (List.length (digit_text 10 (Z.abs_N z))) then None else
-  Some (join [sp] ((if (z <? 0)%Z then [tx "negative"] else []) ++
-                   rev (GL T (t_triples T) (if colon then t_ordone T else t_one T) (if colon then t_ordteen T else t_teen T)
-                           (triples_of (Z.abs_N z))))).
+  match go_ordinal_first colon (digit_text 10 (Z.abs_N z))
+          (GL T (t_triples T) (if colon then t_ordone T else t_one T) (if colon then t_ordteen T else t_teen T)
+              (triples_of (Z.abs_N z))) with
+  | None => None
+  | Some words => Some (join [sp] ((if (z <? 0)%Z then [tx "negative"] else []) ++ rev words))
+  end.
 Proof.
   intros T colon z Hz. unfold dec_text, int_text.
   assert (Hn : (0 < Z.abs_N z)%N) by lia.
@@ -295,9 +306,48 @@ Proof.
   rewrite app_nil_r in L. fold (triples_of (Z.abs_N z)) in L. cbn [app] in L.
   destruct (z <? 0)%Z.
   - pose proof (go_english_digits T colon true d rest Hd) as G. cbn [app] in G.
-    rewrite E, G, <- E, L. unfold english_of_loop. rewrite rev_app_distr. destruct (Nat.ltb _ _); reflexivity.
+    rewrite E, G, <- E, L. unfold english_of_loop. destruct (Nat.ltb (3 * List.length (t_triples T)) (List.length (digit_text 10 (Z.abs_N z)))); [reflexivity|].
+    destruct (go_ordinal_first _ _ _); [|reflexivity]. rewrite rev_app_distr. reflexivity.
   - pose proof (go_english_digits T colon false d rest Hd) as G. cbn [app] in G.
-    rewrite E, G, <- E, L. unfold english_of_loop. destruct (Nat.ltb _ _); reflexivity.
+    rewrite E, G, <- E, L. unfold english_of_loop.
+    destruct (Nat.ltb (3 * List.length (t_triples T)) (List.length (digit_text 10 (Z.abs_N z)))); [reflexivity|].
+    destruct (go_ordinal_first _ _ _); reflexivity.
+Qed.
+
+(* the test of dirR on the last two digits, in terms of the number: it ends in 0 and not in 10 *)
+Definition ordz (n : N) : bool := (n mod 10 =? 0)%N && negb (n / 10 mod 10 =? 1)%N.
+Lemma dc_is : forall d, (d < 10)%N -> ascii_eqb (dc d) "0" = (d =? 0)%N /\ ascii_eqb (dc d) "1" = (d =? 1)%N.
+Proof.
+  intros d H.
+  assert (Hin : In d (map N.of_nat (seq 0 10))).
+  { apply in_map_iff. exists (N.to_nat d). split; [lia | apply in_seq; lia]. }
+  cbn [seq map] in Hin. repeat (destruct Hin as [<- | Hin]; [split; vm_compute; reflexivity |]). destruct Hin.
+Qed.
+Lemma go_ordinal_first_num : forall colon n W, (0 < n)%N ->
+  go_ordinal_first colon (digit_text 10 n) W =
+  if colon && ordz n then match W with [] => None | w :: ws => Some (go_ordinal_suffix w :: ws) end else Some W.
+Proof.
+  intros colon n W Hn. unfold go_ordinal_first, ordz.
+  destruct (N.ltb n 10) eqn:E; [apply N.ltb_lt in E | apply N.ltb_ge in E].
+  - rewrite digit_text_small by exact E. cbn [List.length Nat.sub]. change (ch_at [dc n] 0) with (dc n).
+    rewrite (proj1 (dc_is n E)). rewrite N.mod_small by exact E.
+    replace (n =? 0)%N with false by (symmetry; apply N.eqb_neq; lia). cbn [andb]. rewrite andb_false_r. reflexivity.
+  - rewrite digit_text_step by exact E.
+    assert (Hq : (0 < n / 10)%N) by (apply N.div_str_pos; lia).
+    assert (E2 : exists P, digit_text 10 (n / 10) = P ++ [dc (n / 10 mod 10)]).
+    { destruct (N.ltb (n / 10) 10) eqn:E3; [apply N.ltb_lt in E3 | apply N.ltb_ge in E3].
+      - exists []. rewrite digit_text_small by exact E3. rewrite N.mod_small by exact E3. reflexivity.
+      - exists (digit_text 10 (n / 10 / 10)). apply digit_text_step. exact E3. }
+    destruct E2 as [P EP]. rewrite EP. rewrite <- app_assoc. cbn [app].
+    rewrite app_length. cbn [List.length].
+    replace (List.length P + 2 - 1) with (List.length (P ++ [dc (n / 10 mod 10)])) by (rewrite app_length; cbn [List.length]; lia).
+    replace (P ++ [dc (n / 10 mod 10); dc (n mod 10)]) with ((P ++ [dc (n / 10 mod 10)]) ++ dc (n mod 10) :: []) by (rewrite <- app_assoc; reflexivity).
+    rewrite ch_at_app.
+    replace (List.length (P ++ [dc (n / 10 mod 10)]) - 1) with (List.length P) by (rewrite app_length; cbn [List.length]; lia).
+    rewrite <- app_assoc. cbn [app]. rewrite ch_at_app.
+    rewrite (proj1 (dc_is (n mod 10) ltac:(apply N.mod_lt; lia))), (proj2 (dc_is (n / 10 mod 10) ltac:(apply N.mod_lt; lia))).
+    replace (Nat.eqb (List.length (P ++ [dc (n / 10 mod 10)])) 0) with false by (symmetry; apply Nat.eqb_neq; rewrite app_length; cbn [List.length]; lia).
+    destruct colon, (n mod 10 =? 0)%N, (n / 10 mod 10 =? 1)%N; reflexivity.
 Qed.
 
 (* the length of the decimal text: k digits exactly from 10^(k-1) to 10^k - 1 *)
@@ -398,14 +448,51 @@ Proof.
   rewrite IH by (try assumption; lia). rewrite (chkA_fact T HA) by (try assumption; lia). reflexivity.
 Qed.
 
-(* ---- the static predicate (the domain of the theorem) ---------------------------------------------------- *)
-(* where the loop of dirR writes the defined text: for ordinals below 10^66 the last two digits are 01..19 or the last
-   digit is not 0 (from 10^66 on both signal an error). (Three more clauses went with the repairs repo_fixes/C15-1, C15-2
-   and C15-3: the group of 10^18, spelled quantillion, had to be zero; no group could have a tens digit 2..9 with a units
-   digit 0, which appended the empty word one[0]; the number had to be below 10^66, the higher digits were dropped.) *)
-Definition english_ok (ordinal : bool) (n : N) : bool :=
-  (ten66 <=? n)%N ||
-  (negb ordinal || (n =? 0)%N || ((1 <=? n mod 100)%N && (n mod 100 <? 20)%N) || negb (n mod 10 =? 0)%N).
+(* the finite check for ordinals of numbers that end in 0 (not 10): the ordinal tables are not used in the first round *)
+Definition chkD (T : tables) : bool :=
+  forallb (fun j => implb (negb (ordt (N.of_nat j)))
+                          (texts_eq (gw_rev T 0 true (N.of_nat j)) (gw_rev T 0 false (N.of_nat j)))) (seq 0 1000).
+Lemma chkD_fact : forall T, chkD T = true -> forall t, (t < 1000)%N -> ordt t = false ->
+  gw_rev T 0 true t = gw_rev T 0 false t.
+Proof.
+  intros T H t Ht Ho. unfold chkD in H. rewrite forallb_forall in H.
+  specialize (H (N.to_nat t) ltac:(apply in_seq; lia)). rewrite N2Nat.id, Ho in H. apply texts_eq_eq. exact H.
+Qed.
+(* ... and the last word of the definition is then a tens word, "hundred" or a scale word: the ending dirR gives it
+   (y -> ieth, otherwise + th) is its ordinal form. A fact about the definition alone, all 22 x 1000 groups. *)
+Definition sfx_ok (w : text) : bool := text_eqb (go_ordinal_suffix w) (ordinal_word w).
+Lemma last_word_suffix_all :
+  forallb (fun k => forallb (fun j => (N.of_nat j =? 0)%N || (Nat.eqb k 0 && ordt (N.of_nat j)) ||
+                                      sfx_ok (last (spec_grp k (N.of_nat j)) [])) (seq 0 1000)) (seq 0 22) = true.
+Proof. vm_compute. reflexivity. Qed.
+Lemma last_word_suffix : forall k t, k < 22 -> (t < 1000)%N -> t <> 0%N -> (k = 0 -> ordt t = false) ->
+  go_ordinal_suffix (last (spec_grp k t) []) = ordinal_word (last (spec_grp k t) []).
+Proof.
+  intros k t Hk Ht Hnz Ho. pose proof last_word_suffix_all as H. rewrite forallb_forall in H.
+  specialize (H k ltac:(apply in_seq; lia)). rewrite forallb_forall in H.
+  specialize (H (N.to_nat t) ltac:(apply in_seq; lia)). rewrite N2Nat.id in H.
+  replace (t =? 0)%N with false in H by (symmetry; apply N.eqb_neq; exact Hnz). cbn [orb] in H.
+  destruct (Nat.eqb k 0 && ordt t) eqn:E.
+  - apply andb_true_iff in E. destruct E as [E1 E2]. apply Nat.eqb_eq in E1. rewrite (Ho E1) in E2. discriminate.
+  - cbn [orb] in H. apply text_eqb_eq. exact H.
+Qed.
+Lemma spec_grp_nil : forall k t, spec_grp k t = [] -> (t < 1000)%N -> t = 0%N.
+Proof.
+  intros k t H Ht. unfold spec_grp in H. destruct (t =? 0)%N eqn:E; [apply N.eqb_eq; exact E|].
+  apply N.eqb_neq in E. apply app_eq_nil in H. destruct H as [H _].
+  destruct (triple_fact t ltac:(lia)) as [_ [_ Hne]]. contradiction.
+Qed.
+Lemma last_group_suffix : forall ts k, 1 <= k -> k + List.length ts <= 22 -> Forall (fun t => (t < 1000)%N) ts ->
+  group_words k ts <> [] ->
+  go_ordinal_suffix (last (group_words k ts) []) = ordinal_word (last (group_words k ts) []).
+Proof.
+  induction ts as [|t ts IH]; intros k Hk Hl Hts Hne; [contradiction|].
+  inversion Hts as [|? ? Ht Hts']; subst. cbn [List.length] in Hl. rewrite group_words_cons in *.
+  destruct (spec_grp k t) as [|w g] eqn:E.
+  - rewrite app_nil_r in *. apply IH; try assumption; lia.
+  - rewrite last_app_ne by discriminate. rewrite <- E. apply last_word_suffix; try assumption; try lia.
+    intros E0. subst t. unfold spec_grp in E. cbn in E. discriminate.
+Qed.
 
 (* what is known of the groups of a number 0 < n < 10^66 *)
 Lemma triples_facts : forall n, (0 < n < ten66)%N ->
@@ -420,8 +507,23 @@ Proof.
   { unfold triples_of. cbn [triples_fuel]. replace (n =? 0)%N with false by (symmetry; apply N.eqb_neq; lia). reflexivity. }
   eexists. split; [exact E|]. split; [rewrite E in Hl; cbn [List.length] in Hl; lia | assumption].
 Qed.
+Lemma ordt_ordz : forall n, ordt (n mod 1000) = negb (ordz n).
+Proof.
+  intros n. unfold ordt, ordz.
+  replace ((n mod 1000) mod 100)%N with (n mod 100)%N by lia. replace ((n mod 1000) mod 10)%N with (n mod 10)%N by lia.
+  destruct (n mod 10 =? 0)%N eqn:E1; destruct (n / 10 mod 10 =? 1)%N eqn:E2;
+    destruct (1 <=? n mod 100)%N eqn:E3; destruct (n mod 100 <? 20)%N eqn:E4; try reflexivity; exfalso;
+    repeat match goal with
+           | H : (_ =? _)%N = true |- _ => apply N.eqb_eq in H
+           | H : (_ =? _)%N = false |- _ => apply N.eqb_neq in H
+           | H : (_ <=? _)%N = true |- _ => apply N.leb_le in H
+           | H : (_ <=? _)%N = false |- _ => apply N.leb_gt in H
+           | H : (_ <? _)%N = true |- _ => apply N.ltb_lt in H
+           | H : (_ <? _)%N = false |- _ => apply N.ltb_ge in H
+           end; lia.
+Qed.
 
-(* ---- 5. the theorem: on english_ok the loop writes the defined text, for ALL integers ---------------------- *)
+(* ---- 5. the theorem: the loop writes the defined text, for ALL integers, cardinal and ordinal ------------------ *)
 Lemma GL_ggroup0 : forall T ts ord, List.length ts <= List.length (t_triples T) ->
   rev (GL T (t_triples T) (sel_one T ord) (sel_teen T ord) ts) = ggroup T 0 ord ts.
 Proof. intros T ts ord H. exact (GL_ggroup T ts 0 ord H). Qed.
@@ -436,185 +538,72 @@ Lemma dec_text_0 : dec_text 0 = ["0"%char].
 Proof. vm_compute. reflexivity. Qed.
 Lemma english_zero : forall T ordinal, go_english T ordinal (dec_text 0) = std_english ordinal 0.
 Proof. intros T ordinal. rewrite dec_text_0. destruct ordinal; vm_compute; reflexivity. Qed.
-
-Theorem english_loop_T : forall T, List.length (t_triples T) = 22 -> chkA T = true -> chkC T = true ->
-  forall ordinal z, english_ok ordinal (Z.abs_N z) = true -> go_english T ordinal (dec_text z) = std_english ordinal z.
+(* the words of a number that is not 0: there is one *)
+Lemma group_words_nonempty : forall z, z <> 0%Z -> (Z.abs_N z < ten66)%N -> group_words 0 (triples_of (Z.abs_N z)) <> [].
 Proof.
-  intros T HL HA HC ordinal z Hok.
+  intros z Hz Hlt E. pose proof (cardinal_words_pos z Hz Hlt) as Hc. rewrite E, app_nil_r in Hc.
+  destruct (cardinal_words_shape z _ Hc) as [Hne [_ Hlast]].
+  destruct (z <? 0)%Z; [|contradiction]. cbn [last] in Hlast. destruct Hlast as [H | H]; vm_compute in H; discriminate.
+Qed.
+
+Theorem english_loop_T : forall T, List.length (t_triples T) = 22 -> chkA T = true -> chkC T = true -> chkD T = true ->
+  forall ordinal z, go_english T ordinal (dec_text z) = std_english ordinal z.
+Proof.
+  intros T HL HA HC HD ordinal z.
   destruct (Z.eq_dec z 0) as [-> | Hz]. { apply english_zero. }
-  unfold english_ok in Hok. set (n := Z.abs_N z) in *.
+  set (n := Z.abs_N z) in *.
   rewrite go_english_words by exact Hz. fold n. rewrite (too_large T n HL).
   destruct (ten66 <=? n)%N eqn:Hlt; [apply N.leb_le in Hlt | apply N.leb_gt in Hlt].
   { rewrite english_domain by (subst n; lia). reflexivity. }
-  cbn [orb] in Hok. rename Hok into Ho.
   destruct (triples_facts n ltac:(lia)) as [ts' [E [Hl Hb]]].
+  rewrite go_ordinal_first_num by lia.
   change (if ordinal then t_ordone T else t_one T) with (sel_one T ordinal).
   change (if ordinal then t_ordteen T else t_teen T) with (sel_teen T ordinal).
-  rewrite GL_ggroup0 by (rewrite E, HL; cbn [List.length]; lia).
+  pose proof (GL_ggroup0 T (triples_of n) ordinal ltac:(rewrite E, HL; cbn [List.length]; lia)) as HG.
+  pose proof (group_words_nonempty z Hz Hlt) as Hgne. fold n in Hgne.
   unfold std_english, ordinal_words. rewrite (cardinal_words_pos z Hz Hlt). fold n.
-  destruct ordinal.
-  - (* ordinal: the lowest group is written with the ordinal tables *)
-    rewrite E in *.
-    inversion Hb as [|? ? Ht Hts']; subst.
-    assert (Hord : ordt (n mod 1000) = true).
-    { cbn [negb orb] in Ho. replace (n =? 0)%N with false in Ho by (symmetry; apply N.eqb_neq; lia). cbn [orb] in Ho.
-      unfold ordt. replace ((n mod 1000) mod 100)%N with (n mod 100)%N by lia.
-      replace ((n mod 1000) mod 10)%N with (n mod 10)%N by lia. exact Ho. }
-    assert (Hnz : (n mod 1000 <> 0)%N).
-    { intros E0. unfold ordt in Hord. rewrite E0 in Hord. discriminate. }
-    cbn [ggroup]. rewrite (ggroup_card T HA) by (try assumption; lia).
-    rewrite (chkC_fact T HC) by assumption.
-    rewrite group_words_cons. unfold spec_grp.
-    replace (n mod 1000 =? 0)%N with false by (symmetry; apply N.eqb_neq; exact Hnz). cbn [Nat.eqb]. rewrite app_nil_r.
-    destruct (triple_fact (n mod 1000) ltac:(lia)) as [_ [_ Hne]].
-    unfold ord_grp.
-    set (A := (if (z <? 0)%Z then [tx "negative"] else []) ++ group_words 1 ts').
-    replace ((if (z <? 0)%Z then [tx "negative"] else []) ++ group_words 1 ts' ++ triple_words (n mod 1000))
-      with (A ++ triple_words (n mod 1000)) by (subst A; rewrite <- app_assoc; reflexivity).
-    rewrite removelast_app by exact Hne. rewrite last_app_ne by exact Hne.
-    subst A. rewrite <- !app_assoc. reflexivity.
-  - rewrite (ggroup_card T HA) by (try assumption; rewrite E; cbn [List.length]; lia). reflexivity.
+  set (negw := if (z <? 0)%Z then [tx "negative"] else []).
+  rewrite E in *. inversion Hb as [|? ? Ht Hts']; subst.
+  destruct ordinal; cbn [andb].
+  - pose proof (ordt_ordz n) as Hoz. destruct (ordz n).
+    + (* it ends in 0 and not in 10: no ordinal table is used, the last word takes the ending *)
+      cbn [negb] in Hoz. cbn [ggroup] in HG. rewrite (chkD_fact T HD) in HG by assumption.
+      change (ggroup T 1 false ts' ++ gw_rev T 0 false (n mod 1000)) with (ggroup T 0 false ((n mod 1000)%N :: ts')) in HG.
+      rewrite (ggroup_card T HA) in HG by (try assumption; cbn [List.length]; lia).
+      set (G := group_words 0 ((n mod 1000)%N :: ts')) in *.
+      assert (HW : GL T (t_triples T) (sel_one T true) (sel_teen T true) ((n mod 1000)%N :: ts') =
+                   last G [] :: rev (removelast G)).
+      { rewrite <- (rev_involutive (GL _ _ _ _ _)), HG. rewrite (app_removelast_last [] Hgne) at 1.
+        rewrite rev_app_distr. reflexivity. }
+      rewrite HW. cbn [rev]. rewrite rev_involutive.
+      assert (Hs : go_ordinal_suffix (last G []) = ordinal_word (last G [])).
+      { subst G. rewrite group_words_cons in *. destruct (spec_grp 0 (n mod 1000)) as [|w g] eqn:E0.
+        - rewrite app_nil_r in *. apply last_group_suffix; try assumption; lia.
+        - rewrite last_app_ne by discriminate. rewrite <- E0. apply last_word_suffix; try assumption; try lia.
+          + intros E1. rewrite E1 in E0. cbn in E0. discriminate.
+          + intros _. exact Hoz. }
+      rewrite Hs. rewrite removelast_app by exact Hgne. rewrite last_app_ne by exact Hgne.
+      rewrite <- !app_assoc. reflexivity.
+    + (* the lowest group is written with the ordinal tables *)
+      cbn [negb] in Hoz. rename Hoz into Hord.
+      assert (Hnz : (n mod 1000 <> 0)%N).
+      { intros E0. unfold ordt in Hord. rewrite E0 in Hord. discriminate. }
+      rewrite HG. cbn [ggroup]. rewrite (ggroup_card T HA) by (try assumption; lia).
+      rewrite (chkC_fact T HC) by assumption.
+      rewrite group_words_cons. unfold spec_grp.
+      replace (n mod 1000 =? 0)%N with false by (symmetry; apply N.eqb_neq; exact Hnz). cbn [Nat.eqb]. rewrite app_nil_r.
+      destruct (triple_fact (n mod 1000) ltac:(lia)) as [_ [_ Hne]].
+      unfold ord_grp.
+      set (A := negw ++ group_words 1 ts').
+      replace (negw ++ group_words 1 ts' ++ triple_words (n mod 1000))
+        with (A ++ triple_words (n mod 1000)) by (subst A; rewrite <- app_assoc; reflexivity).
+      rewrite removelast_app by exact Hne. rewrite last_app_ne by exact Hne.
+      subst A. rewrite <- !app_assoc. reflexivity.
+  - rewrite HG. rewrite (ggroup_card T HA) by (try assumption; cbn [List.length]; lia). reflexivity.
 Qed.
 
 (* with the tables as they stand in the source *)
-Lemma src_checks : List.length (t_triples src_tables) = 22 /\ chkA src_tables = true /\ chkC src_tables = true.
-Proof. split; [reflexivity|]. split; vm_compute; reflexivity. Qed.
-Theorem english_loop : forall ordinal z, english_ok ordinal (Z.abs_N z) = true ->
-  go_english src_tables ordinal (dec_text z) = std_english ordinal z.
-Proof. destruct src_checks as [H1 [H2 H3]]. exact (english_loop_T src_tables H1 H2 H3). Qed.
-
-(* ---- 6. the converse: outside english_ok the loop writes something else ------------------------------------- *)
-Lemma is_word_in : forall w, is_word w = true -> In w all_words.
-Proof. intros w H. unfold is_word in H. apply existsb_exists in H. destruct H as [x [Hx E]]. apply text_eqb_eq in E. subst. exact Hx. Qed.
-Lemma ordinal_differs_all : forallb (fun w => negb (text_eqb (ordinal_word w) w)) (tx "zero" :: all_words) = true.
-Proof. vm_compute. reflexivity. Qed.
-Lemma ordinal_differs : forall w, (w = tx "zero" \/ is_word w = true) -> ordinal_word w <> w.
-Proof.
-  intros w Hw E. pose proof ordinal_differs_all as H. rewrite forallb_forall in H.
-  specialize (H w ltac:(destruct Hw as [-> | Hw]; [left; reflexivity | right; apply is_word_in; exact Hw])).
-  rewrite E, text_eqb_refl in H. discriminate.
-Qed.
-(* the words of the definition, cardinal or ordinal, have no blank, and there is one at least *)
-Lemma std_words_shape : forall (ordinal : bool) z ws, (if ordinal then ordinal_words z else cardinal_words z) = Some ws ->
-  ws <> [] /\ forallb no_space ws = true /\ hd [] ws <> [].
-Proof.
-  intros ordinal z ws H.
-  assert (G : forall cw, cardinal_words z = Some cw ->
-              cw <> [] /\ forallb no_space cw = true /\ hd [] cw <> []).
-  { intros cw Hc. destruct (cardinal_words_shape z cw Hc) as [Hne [Hw _]]. split; [exact Hne|].
-    rewrite forallb_forall in Hw. split.
-    - apply forallb_forall. intros x Hx. apply (wordish_no_space x (Hw x Hx)).
-    - destruct cw as [|w cw]; [contradiction|]. cbn [hd]. intros E. specialize (Hw w (or_introl eq_refl)). subst w. discriminate. }
-  destruct ordinal; [|exact (G ws H)].
-  unfold ordinal_words in H. destruct (cardinal_words z) as [cw|] eqn:Hc; [|discriminate]. inversion H; subst ws. clear H.
-  destruct (G cw eq_refl) as [Hne [Hn Hh]]. destruct (cardinal_words_shape z cw Hc) as [_ [Hw Hlast]].
-  assert (Hlw : wordish (last cw []) = true).
-  { rewrite forallb_forall in Hw. apply Hw. destruct cw as [|x l] using rev_ind; [contradiction|].
-    rewrite last_last. apply in_or_app. right. left. reflexivity. }
-  split; [destruct (removelast cw); discriminate|]. split.
-  - rewrite forallb_app, forallb_removelast by exact Hn. cbn [forallb].
-    rewrite (proj2 (wordish_no_space _ Hlw)). reflexivity.
-  - destruct cw as [|w cw]; [contradiction|]. destruct cw as [|w2 cw].
-    + cbn [removelast app hd last]. intros E. cbn [last] in Hlast.
-      assert (Hin : In w (tx "zero" :: all_words)) by (destruct Hlast as [-> | Hl]; [left; reflexivity | right; apply is_word_in; exact Hl]).
-      assert (Hall : forallb (fun w => negb (text_eqb (ordinal_word w) [])) (tx "zero" :: all_words) = true) by (vm_compute; reflexivity).
-      rewrite forallb_forall in Hall. specialize (Hall w Hin). rewrite E in Hall. discriminate.
-    + cbn [removelast app hd]. cbn [hd] in Hh. exact Hh.
-Qed.
-Lemma join_inj : forall a b, a <> [] -> b <> [] -> forallb no_space a = true -> forallb no_space b = true ->
-  join [sp] a = join [sp] b -> a = b.
-Proof.
-  intros a b Ha Hb Hna Hnb E.
-  destruct a as [|w ws]; [contradiction|]. destruct b as [|v vs]; [contradiction|].
-  cbn [forallb] in Hna, Hnb. apply andb_true_iff in Hna. apply andb_true_iff in Hnb.
-  destruct Hna as [H1 H2]. destruct Hnb as [H3 H4].
-  pose proof (split_join ws w [] H1 H2) as S1. pose proof (split_join vs v [] H3 H4) as S2.
-  rewrite E in S1. rewrite S1 in S2. cbn [rev app] in S2. exact S2.
-Qed.
-
-(* two more finite checks over the tables: the words of the loop have no blank; where the ordinal condition fails on the
-   lowest group (it ends in 00, 20, 30, ... 90) the ordinal tables are not used *)
-Definition chkN (T : tables) : bool :=
-  forallb (fun k => forallb (fun j => forallb no_space (gw_rev T k false (N.of_nat j)) && forallb no_space (gw_rev T k true (N.of_nat j)))
-                            (seq 0 1000)) (seq 0 22).
-Definition chkD (T : tables) : bool :=
-  forallb (fun j => implb (negb (ordt (N.of_nat j)))
-                          (texts_eq (gw_rev T 0 true (N.of_nat j)) (gw_rev T 0 false (N.of_nat j)))) (seq 0 1000).
-Lemma chkN_fact : forall T, chkN T = true -> forall k t ord, k < 22 -> (t < 1000)%N -> forallb no_space (gw_rev T k ord t) = true.
-Proof.
-  intros T H k t ord Hk Ht. unfold chkN in H. rewrite forallb_forall in H.
-  specialize (H k ltac:(apply in_seq; lia)). rewrite forallb_forall in H.
-  specialize (H (N.to_nat t) ltac:(apply in_seq; lia)). rewrite N2Nat.id in H.
-  apply andb_true_iff in H. destruct H. destruct ord; assumption.
-Qed.
-Lemma chkD_fact : forall T, chkD T = true -> forall t, (t < 1000)%N -> ordt t = false ->
-  gw_rev T 0 true t = gw_rev T 0 false t.
-Proof.
-  intros T H t Ht Ho. unfold chkD in H. rewrite forallb_forall in H.
-  specialize (H (N.to_nat t) ltac:(apply in_seq; lia)). rewrite N2Nat.id, Ho in H. apply texts_eq_eq. exact H.
-Qed.
-Lemma ggroup_no_space : forall T, chkN T = true -> forall ts k ord, k + List.length ts <= 22 ->
-  Forall (fun t => (t < 1000)%N) ts -> forallb no_space (ggroup T k ord ts) = true.
-Proof.
-  intros T HN. induction ts as [|t ts IH]; intros k ord Hk Hts; [reflexivity|].
-  inversion Hts as [|? ? Ht Hts']; subst. cbn [List.length] in Hk. cbn [ggroup].
-  rewrite forallb_app, IH by (try assumption; lia). rewrite (chkN_fact T HN) by (try assumption; lia). reflexivity.
-Qed.
-Theorem english_loop_converse_T : forall T, List.length (t_triples T) = 22 ->
-  chkA T = true -> chkN T = true -> chkD T = true ->
-  forall ordinal z, english_ok ordinal (Z.abs_N z) = false -> go_english T ordinal (dec_text z) <> std_english ordinal z.
-Proof.
-  intros T HL HA HN HD ordinal z Hok Heq.
-  destruct (Z.eq_dec z 0) as [-> | Hz]. { destruct ordinal; vm_compute in Hok; discriminate. }
-  unfold english_ok in Hok. set (n := Z.abs_N z) in *.
-  rewrite go_english_words in Heq by exact Hz. fold n in Heq. rewrite (too_large T n HL) in Heq.
-  destruct (ten66 <=? n)%N eqn:Hlt; [discriminate Hok|]. apply N.leb_gt in Hlt. cbn [orb] in Hok.
-  destruct (triples_facts n ltac:(lia)) as [ts' [E [Hl Hb]]].
-  pose proof (cardinal_words_pos z Hz Hlt) as Hc. fold n in Hc.
-  change (if ordinal then t_ordone T else t_one T) with (sel_one T ordinal) in Heq.
-  change (if ordinal then t_ordteen T else t_teen T) with (sel_teen T ordinal) in Heq.
-  rewrite GL_ggroup0 in Heq by (rewrite E, HL; cbn [List.length]; lia).
-  unfold std_english in Heq.
-  destruct (if ordinal then ordinal_words z else cardinal_words z) as [ws|] eqn:Hws; [|discriminate].
-  destruct (std_words_shape ordinal z ws Hws) as [Hne [Hns _]].
-  apply (f_equal (fun o : option text => match o with Some t => t | None => [] end)) in Heq. cbv beta iota in Heq.
-  set (negw := if (z <? 0)%Z then [tx "negative"] else []) in *.
-  assert (Hnsg : forallb no_space (negw ++ ggroup T 0 ordinal (triples_of n)) = true).
-  { rewrite forallb_app. rewrite (ggroup_no_space T HN) by (try assumption; rewrite E; cbn [List.length]; lia).
-    subst negw. destruct (z <? 0)%Z; reflexivity. }
-  (* it is the ordinal of a number that ends in 0 (and not in 10): the loop writes the cardinal *)
-  destruct ordinal; [|discriminate]. cbn [negb orb] in Hok.
-  replace (n =? 0)%N with false in Hok by (symmetry; apply N.eqb_neq; lia). cbn [orb] in Hok.
-  rewrite E in *.
-  inversion Hb as [|? ? Ht Hts']; subst.
-  assert (Hord : ordt (n mod 1000) = false).
-  { unfold ordt. replace ((n mod 1000) mod 100)%N with (n mod 100)%N by lia.
-    replace ((n mod 1000) mod 10)%N with (n mod 10)%N by lia. exact Hok. }
-  cbn [ggroup] in Heq, Hnsg. rewrite (chkD_fact T HD) in Heq, Hnsg by assumption.
-  change (ggroup T 1 false ts' ++ gw_rev T 0 false (n mod 1000)) with (ggroup T 0 false ((n mod 1000)%N :: ts')) in Heq, Hnsg.
-  rewrite (ggroup_card T HA) in Heq, Hnsg by (try assumption; cbn [List.length]; lia).
-  remember (negw ++ group_words 0 ((n mod 1000)%N :: ts')) as cw eqn:Ecw.
-  unfold ordinal_words in Hws. rewrite Hc in Hws. injection Hws as Hws.
-  destruct (cardinal_words_shape z cw Hc) as [Hcne [_ Hlast]].
-  apply join_inj in Heq; try assumption.
-  rewrite <- Hws in Heq. apply (f_equal (fun l => last l [])) in Heq. cbv beta in Heq. rewrite last_last in Heq.
-  exact (ordinal_differs _ Hlast (eq_sym Heq)).
-Qed.
-
-(* with the tables as they stand in the source: both directions *)
-Lemma src_checks_converse : chkN src_tables = true /\ chkD src_tables = true.
-Proof. split; vm_compute; reflexivity. Qed.
-Theorem english_loop_converse : forall ordinal z, english_ok ordinal (Z.abs_N z) = false ->
-  go_english src_tables ordinal (dec_text z) <> std_english ordinal z.
-Proof.
-  destruct src_checks as [H1 [H2 _]]. destruct src_checks_converse as [H3 H4].
-  exact (english_loop_converse_T src_tables H1 H2 H3 H4).
-Qed.
-Theorem english_loop_exact : forall ordinal z,
-  go_english src_tables ordinal (dec_text z) = std_english ordinal z <-> english_ok ordinal (Z.abs_N z) = true.
-Proof.
-  intros ordinal z. split.
-  - intros H. destruct (english_ok ordinal (Z.abs_N z)) eqn:E; [reflexivity|].
-    exfalso. exact (english_loop_converse ordinal z E H).
-  - apply english_loop.
-Qed.
+Lemma src_checks : List.length (t_triples src_tables) = 22 /\ chkA src_tables = true /\ chkC src_tables = true /\ chkD src_tables = true.
+Proof. split; [reflexivity|]. split; [|split]; vm_compute; reflexivity. Qed.
+Theorem english_loop : forall ordinal z, go_english src_tables ordinal (dec_text z) = std_english ordinal z.
+Proof. destruct src_checks as [H1 [H2 [H3 H4]]]. exact (english_loop_T src_tables H1 H2 H3 H4). Qed.
